@@ -3,13 +3,24 @@ Model of middleware/retry.go: RetryMiddleware(maxRetries, delay)(next).RoundTrip
 
     var resp, err
     for attempt := 0; attempt <= maxRetries; attempt++ {
-        if attempt > 0 { log; time.Sleep(delay) }
-        resp, err = next.RoundTrip(req)
+        attemptReq := req
+        if attempt > 0 {
+            log; time.Sleep(delay)
+            if req.Body != nil && req.Body != http.NoBody && req.GetBody != nil {     -- since 371dec3
+                body, gerr := req.GetBody()
+                if gerr != nil { return resp, err }        -- cannot be sent again: the last attempt's outcome stands
+                attemptReq = req.Clone(req.Context()); attemptReq.Body = body
+            }
+        }
+        resp, err = next.RoundTrip(attemptReq)
         if err == nil && resp.StatusCode < 500 { return resp, nil }
     }
     return resp, err
 
 The wrapped transport is an outcome script `Nat → Outcome` (what the i-th call returns).
+`loop`/`retry` are the loop for a request whose body never makes `GetBody` fail (the property's quantifier);
+`loopB`/`retryB` are the whole loop with the request's body kind as a parameter (`ReqBody`), including the early
+exit when `GetBody` fails, and `view` says which request object and which body each attempt is handed.
 -/
 namespace ShootVerif.Retry
 
@@ -67,6 +78,54 @@ def retry (script : Nat → Outcome) (maxRetries : Int) : List Event × Ret :=
 
 def calls (t : List Event) : Nat := (t.filter (fun e => e != Event.sleep)).length
 
+/-! ## The request's body (the branch added by 371dec3) -/
+
+/-- what the request carries -/
+inductive ReqBody where
+  | none                            -- `Body == nil` or `http.NoBody`
+  | stream                          -- a body without `GetBody`: it cannot be read a second time
+  | replay (failAt : Option Nat)    -- `GetBody` is set; the call made before attempt `k` fails when `failAt = some k`
+  deriving Repr, DecidableEq, Inhabited
+
+/-- the attempt before which `GetBody` reports an error (if any) -/
+def ReqBody.failAt : ReqBody → Option Nat
+  | .replay f => f
+  | _ => Option.none
+
+/-- what one attempt is handed: the caller's request object or a clone, and the state of its body -/
+inductive View where
+  | origNoBody | origFull | origDrained | cloneFull
+  deriving Repr, DecidableEq
+
+/-- attempt 0 gets the request itself; later attempts get a clone with a fresh reader when the body can be
+    replayed, otherwise the same request again (whose stream the first attempt has read to its end) -/
+def view (b : ReqBody) (attempt : Nat) : View :=
+  match b with
+  | .none => .origNoBody
+  | .stream => if attempt = 0 then .origFull else .origDrained
+  | .replay _ => if attempt = 0 then .origFull else .cloneFull
+
+/-- the whole `for` loop: as `loop`, plus the early exit `if gerr != nil { return resp, err }` taken before
+    attempt `a > 0` when that attempt's `GetBody` call fails (the wait of that attempt has already happened) -/
+def loopB (script : Nat → Outcome) (fail : Option Nat) : (remaining a : Nat) → (last : Option (Nat × Outcome)) → List Event × Ret
+  | 0, _, last => ([], retOf last)
+  | r + 1, a, last =>
+    let pre := if a > 0 then [Event.sleep] else []
+    if a > 0 ∧ fail = some a then (pre, retOf last)
+    else
+      let o := script a
+      if o.acceptable then (pre ++ [Event.call a], ⟨some a, none⟩)
+      else
+        let (t, res) := loopB script fail r (a + 1) (some (a, o))
+        (pre ++ [Event.call a] ++ t, res)
+
+def retryB (script : Nat → Outcome) (maxRetries : Int) (b : ReqBody) : List Event × Ret :=
+  if maxRetries < 0 then ([], ⟨none, none⟩) else loopB script b.failAt (maxRetries.toNat + 1) 0 none
+
+/-- the request views of the calls of a trace, in order -/
+def views (b : ReqBody) (t : List Event) : List View :=
+  t.filterMap (fun e => match e with | .call i => some (view b i) | .sleep => Option.none)
+
 /-! ## Specification (straight from the property statement) -/
 
 /-- index of the first acceptable outcome among attempts `a, a+1, …, a+k-1` -/
@@ -83,5 +142,17 @@ def spec (script : Nat → Outcome) (n : Nat) : List Event × Ret :=
   match firstAcceptable script (n + 1) 0 with
   | some k => (specTrace (k + 1), ⟨some k, none⟩)
   | none => (specTrace (n + 1), retOf (some (n, script n)))
+
+/-- with a body whose `GetBody` fails before attempt `k` (1 ≤ k ≤ n): the attempts `0 … k-1` run as usual; if none of
+    them was acceptable the loop waits once more, cannot rebuild the request and returns the outcome of attempt `k-1` -/
+def specB (script : Nat → Outcome) (n : Nat) (b : ReqBody) : List Event × Ret :=
+  match b.failAt with
+  | some k =>
+    if 0 < k ∧ k ≤ n then
+      match firstAcceptable script k 0 with
+      | some j => (specTrace (j + 1), ⟨some j, none⟩)
+      | none => (specTrace k ++ [Event.sleep], retOf (some (k - 1, script (k - 1))))
+    else spec script n
+  | none => spec script n
 
 end ShootVerif.Retry
